@@ -18,6 +18,59 @@ type State struct {
 	resolved map[types.Object]*Term
 	// bound variables for spec evaluation
 	bound map[string]Val
+	// havoc history: decides the value of heap arrays first touched after a wholesale havoc
+	hv *havocTree
+}
+
+// havocTree records wholesale havocs (everything, or key wildcards). A leaf overrides what
+// came before it (prev); a node joins the histories of two merged states.
+type havocTree struct {
+	leaf     bool
+	all      bool
+	patterns []string
+	prev     *havocTree
+	sel      *Term
+	a, b     *havocTree
+	cache    map[string]*Term
+}
+
+func (h *havocTree) hasAll() bool {
+	if h == nil {
+		return false
+	}
+	if h.leaf {
+		return h.all || h.prev.hasAll()
+	}
+	return h.a.hasAll() || h.b.hasAll()
+}
+
+// resolve returns the value of an untouched heap array under a havoc history.
+func (p *Proc) resolveHavoc(h *havocTree, key string, sort Sort, entry func() *Term) *Term {
+	if h == nil {
+		return entry()
+	}
+	if h.leaf {
+		match := h.all && !strings.HasPrefix(key, "G:$")
+		for _, pat := range h.patterns {
+			if keyMatches(key, pat) {
+				match = true
+			}
+		}
+		if !match {
+			return p.resolveHavoc(h.prev, key, sort, entry)
+		}
+		if t, ok := h.cache[key]; ok {
+			return t
+		}
+		before := p.resolveHavoc(h.prev, key, sort, entry)
+		t := p.freshConst("H_"+key, sort)
+		h.cache[key] = t
+		p.havocFacts = append(p.havocFacts, havocFact{key: key, old: before, nh: t})
+		return t
+	}
+	ta := p.resolveHavoc(h.a, key, sort, entry)
+	tb := p.resolveHavoc(h.b, key, sort, entry)
+	return Ite(h.sel, ta, tb)
 }
 
 type deferred struct {
@@ -35,6 +88,7 @@ func (s *State) clone() *State {
 		pc:       append([]*Term(nil), s.pc...),
 		defers:   append([]*deferred(nil), s.defers...),
 		resolved: make(map[types.Object]*Term, len(s.resolved)),
+		hv:       s.hv,
 	}
 	for k, v := range s.vars {
 		n.vars[k] = v
@@ -132,25 +186,34 @@ func (p *Proc) heapGet(st *State, key string, sort Sort) *Term {
 	if t, ok := st.heap[key]; ok {
 		return t
 	}
-	if havockedKey(st, key) {
-		t := p.freshConst("H_"+key, sort)
-		st.heap[key] = t
-		p.heapMonotoneEntry(st, key, t)
+	entry := func() *Term {
+		// entry symbol shared by all states of the procedure
+		if t, ok := p.heapEntry[key]; ok {
+			return t
+		}
+		name := "H_" + sanitize(key)
+		p.decls = append(p.decls, fmt.Sprintf("(declare-fun |%s| () %s)", name, sort))
+		t := T("|"+name+"|", sort)
+		p.heapEntry[key] = t
+		p.heapOrder = append(p.heapOrder, key)
+		p.entryFacts = append(p.entryFacts, p.heapInitFacts(key, t)...)
 		return t
 	}
-	// entry symbol shared by all states of the procedure
-	if t, ok := p.heapEntry[key]; ok {
-		st.heap[key] = t
-		return t
+	n0 := len(p.havocFacts)
+	t := p.resolveHavoc(st.hv, key, sort, entry)
+	// facts about lazily havocked arrays (allocation grows, nil map stays empty) hold globally
+	for _, hf := range p.havocFacts[n0:] {
+		tmp := newState()
+		p.heapMonotone(tmp, hf.key, hf.old, hf.nh)
+		p.entryFacts = append(p.entryFacts, tmp.pc...)
 	}
-	name := "H_" + sanitize(key)
-	p.decls = append(p.decls, fmt.Sprintf("(declare-fun |%s| () %s)", name, sort))
-	t := T("|"+name+"|", sort)
-	p.heapEntry[key] = t
-	p.heapOrder = append(p.heapOrder, key)
 	st.heap[key] = t
-	p.entryFacts = append(p.entryFacts, p.heapInitFacts(key, t)...)
 	return t
+}
+
+type havocFact struct {
+	key     string
+	old, nh *Term
 }
 
 // heapInitFacts: facts true of every heap (nil map is empty).
@@ -248,6 +311,11 @@ func (p *Proc) merge2(a, b *State) *State {
 		defers:   a.defers,
 		resolved: map[types.Object]*Term{},
 	}
+	if a.hv == b.hv {
+		m.hv = a.hv
+	} else {
+		m.hv = &havocTree{sel: sel, a: a.hv, b: b.hv}
+	}
 	m.pc = append(m.pc, Imp(sel, ra), Imp(Not(sel), rb))
 	for k, va := range a.vars {
 		vb, ok := b.vars[k]
@@ -338,17 +406,15 @@ func sortedKeys(m map[string]*Term) []string {
 	return ks
 }
 
-func havockedKey(st *State, key string) bool {
-	if strings.HasPrefix(key, "$") || strings.HasPrefix(key, "G:$") {
-		return false
-	}
-	if _, ok := st.heap["$epoch"]; ok {
-		return true
-	}
-	for k := range st.heap {
-		if strings.HasPrefix(k, "$pfx:") && strings.HasPrefix(key, strings.TrimPrefix(k, "$pfx:")) {
-			return true
+
+// keyMatches: a heap key matches a wildcard that is either a key prefix or "~text" (a slice/map
+// heap whose Go type mentions text).
+func keyMatches(key, pat string) bool {
+	if strings.HasPrefix(pat, "~") {
+		if !(strings.HasPrefix(key, "SH:") || strings.HasPrefix(key, "MD:") || strings.HasPrefix(key, "MV:") || strings.HasPrefix(key, "MC:")) {
+			return false
 		}
+		return strings.Contains(key, pat[1:])
 	}
-	return false
+	return strings.HasPrefix(key, pat)
 }
